@@ -1,6 +1,7 @@
 package plush
 
 import (
+	"errors"
 	"fmt"
 	"strings"
 
@@ -48,21 +49,30 @@ func (h HelperContext) BlockWith(hc hctx.Context) (string, error) {
 		return "", fmt.Errorf("expected *Context, got %T", hc)
 	}
 
-	octx := h.compiler.ctx
-	defer func() { h.compiler.ctx = octx }()
-	h.compiler.ctx = ctx
-
 	if h.block == nil {
 		return "", fmt.Errorf("no block defined")
 	}
 
-	i, err := h.compiler.evalBlockStatement(h.block)
+	// the block is evaluated by an evaluator of its own: a block stored by
+	// contentFor outlives the execution that defined it and is rendered by later
+	// ones, also several at a time (children of one context in which it was
+	// defined), which must not switch each other's scope
+	cc := *h.compiler
+	cc.ctx = ctx
+	cc.bound = nil
+
+	i, err := cc.evalBlockStatement(h.block)
 	if err != nil {
+		var in *blockError
+		if !errors.As(err, &in) {
+			err = &blockError{stmt: cc.curStmt, err: err}
+		}
+
 		return "", err
 	}
 
 	bb := &strings.Builder{}
-	h.compiler.write(bb, i)
+	cc.write(bb, i)
 
 	return bb.String(), nil
 }
